@@ -30,6 +30,25 @@ MAXLEN = 5            # = MaxLen of the FilterAlgC05 cfgs
 
 
 # --------------------------------------------------------------------------------------------------
+
+_INPUT_ROUTE = [0]
+
+
+def as_input(al, items):
+    """The input signal in one of its legal container forms, cycled per call: one-shot iterators, generators and
+    Streams reveal a consumer that iterates its input more than once without a tee (e.g. a parallel bank)."""
+    _INPUT_ROUTE[0] += 1
+    r = _INPUT_ROUTE[0] % 5
+    if r == 0:
+        return list(items)
+    if r == 1:
+        return iter(items)
+    if r == 2:
+        return (x for x in items)
+    if r == 3:
+        return al.Stream(items)
+    return tuple(items)
+
 def scalar(c, kind):
     """spec rational -> the Python number given to the library"""
     if kind == "frac":
@@ -339,7 +358,7 @@ class Replayer(object):
                 n, ns = self.maxlen, self.ns
                 fo, go = want_vecs(res["fo"]), want_vecs(res["go"])
                 addo, subo, mulo = want_vecs(res["addo"]), want_vecs(res["subo"]), want_vecs(res["mulo"])
-                xs = lambda: [LinForm.sym(i) for i in range(1, n + 1)]
+                xs = lambda: as_input(al, [LinForm.sym(i) for i in range(1, n + 1)])
                 self.expect_out("f(x)", info, lambda: run(Fo, n, ns), fo)
                 self.expect_out("(f+g)(x)", info, lambda: run(Fo + Go, n, ns), addo)
                 self.expect_out("(f+g)(x)", dict(info, form="f(x)+g(x)"),
@@ -390,7 +409,7 @@ class Replayer(object):
                                   fval(res["pow"]), structural=False)
             if kind == "float":
                 so, po = want_vecs(res["so"]), want_vecs(res["po"])
-                xs = lambda: [LinForm.sym(i) for i in range(1, n + 1)]
+                xs = lambda: as_input(al, [LinForm.sym(i) for i in range(1, n + 1)])
                 self.expect_out("(c*f)(x)", info, lambda: run(cv * Fo, n, ns), so)
                 self.expect_out("(c*f)(x)", dict(info, form="f*c"), lambda: run(Fo * cv, n, ns), so)
                 self.expect_out("(c*f)(x)", dict(info, form="c*f(x)"), lambda: vecs([cv * y for y in Fo(xs(), zero=0)], ns), so)
@@ -619,7 +638,7 @@ def m3(ctx, al, ntrees, nsys, length):
         info = {"f": tree_str(tf), "g": tree_str(tg), "c": str(c), "e": e, "len": length}
         try:
             Fo, Go = build(al, tf, "float"), build(al, tg, "float")
-            xs = lambda: [LinForm.sym(i) for i in range(1, length + 1)]
+            xs = lambda: as_input(al, [LinForm.sym(i) for i in range(1, length + 1)])
             V = lambda out: [[list(p) for p in v] for v in vecs(list(out), ns)]
 
             def times():
